@@ -286,7 +286,16 @@ def apply_real(net, op, U: Universe):
         # bulk arguments are documented as Iterable: a trailing "gen" marker passes them as one-shot generators
         gen = op[-1] == "gen"
         wrap = (lambda lst: (x for x in lst)) if gen else (lambda lst: lst)
-        if k == "add_node":
+        if k == "add_link_kw":
+            r = net.add_link(node_up=o[op[1]], link=o[op[2]], node_down=o[op[3]])
+        elif k == "add_origin_kw":
+            r = net.add_origin(origin=o[op[1]], node=o[op[2]])
+        elif k == "add_destination_kw":
+            r = net.add_destination(destination=o[op[1]], node=o[op[2]])
+        elif k == "add_path_kw":
+            r = net.add_path(path=tuple(o[x] for x in op[1]), origin=None if op[2] is None else o[op[2]],
+                             destination=None if op[3] is None else o[op[3]])
+        elif k == "add_node":
             r = net.add_node(o[op[1]])
         elif k == "add_nodes":
             r = net.add_nodes(wrap([o[x] for x in op[1]]))
@@ -361,7 +370,7 @@ LOOKUPS = (
     "nodes", "nodes_by_name", "links", "links_by_name", "nodes_by_link",
     "origins", "origins_by_name", "origins_by_node",
     "destinations", "destinations_by_name", "destinations_by_node",
-    "in_links", "out_links", "links_of_bunch",
+    "in_links", "out_links", "links_of_bunch", "pair_lookup",
 )
 
 
@@ -384,6 +393,12 @@ def observe(net, U: Universe, name: str, s_nodes=None):
         out = {}
         for n in list(net.graph.nodes):
             out[L(n)] = sorted(tuple(L(x) for x in t) for t in view(n))
+        return out
+    if name == "pair_lookup":
+        # subscripting the three link views with a (node, node) pair, for every edge of the graph
+        out = {}
+        for u, v in list(net.graph.edges):
+            out[(L(u), L(v))] = (L(net.links[u, v]), L(net.out_links[u, v]), L(net.in_links[u, v]))
         return out
     if name == "links_of_bunch":
         # the documented nbunch form: a (hashable) tuple of ALL nodes of the universe, present in the graph or not
@@ -437,6 +452,9 @@ def check_lookup(name: str, got, s: Snap):
                 return f"{name}: values {sorted(got.values())}, graph has {sorted(set(exp.values()))}"
             return None
         return _check_multi(name, got, places)
+    if name == "pair_lookup":
+        exp = {(u, v): (l, l, l) for (u, v), l in s.edges.items()}
+        return None if got == exp else f"links[u, v] / out_links[u, v] / in_links[u, v]: got {got}, graph has {exp}"
     if name == "links_of_bunch":
         exp = sorted((u, v, l) for (u, v), l in s.edges.items())
         if got["out"] != exp or got["in"] != exp:
